@@ -6,6 +6,7 @@ per-key-log specification `g i`.  Reads are `Table.latest` (point reads; scans a
 `BlockDb.get`.
 -/
 import Brc20.Proofs.NodeSim
+import Brc20.Gen.Tables
 
 namespace Brc20
 open Node
@@ -86,5 +87,17 @@ theorem C03.clear_is_last_commit (n : Node) (g : TId → TSpec String String) (h
     simp only [Table.step, Option.some.injEq] at e'
     subst e'
     exact s'
+
+/-- **No table is forgotten** (regenerated from `Brc20ProgDatabase` on every run): `commit_changes`, `clear_caches`
+and `reorg` each walk every one of the twelve versioned and three block-keyed tables exactly once.  (The model's
+`commitAll`, `clear` and `reorg` treat all tables uniformly; a table dropped from one of the three functions in the
+Rust breaks this theorem before any history is run.) -/
+theorem C03.every_table_committed_cleared_rolled_back :
+    (∀ l ∈ [Gen.commitVersioned, Gen.clearVersioned, Gen.reorgVersioned], l.length = 12 ∧ ∀ i, i < 12 → i ∈ l) ∧
+    (∀ l ∈ [Gen.commitBlock, Gen.clearBlock, Gen.reorgBlock], l.length = 3 ∧ ∀ i, i < 3 → i ∈ l) := by decide
+
+/-- The tables of the source are the tables of the model: same directory names, same declaration order. -/
+theorem C03.tables_of_the_source :
+    Gen.versionedTables = allTIds.map TId.name ∧ Gen.blockTables = allBIds.map BId.name := by decide
 
 end Brc20
